@@ -8,8 +8,17 @@ from pathlib import Path
 VERIF = Path(__file__).resolve().parent.parent
 sys.path.insert(0, str(VERIF))
 
+import importlib  # noqa: E402
+
 from mitmlint.registry import NOT_APPLICABLE  # noqa: E402
-from mitmlint.registry import REGISTRY  # noqa: E402
+
+
+def reg_of(pid):
+    try:
+        return getattr(importlib.import_module(f"mitmlint.props.{pid}"), "REG", None)
+    except ImportError:
+        return None
+
 
 BASE_OFF = "cd /repo && /venv/bin/python -m pytest -ra -q -p no:cacheprovider --timeout=900 --continue-on-collection-errors"
 
@@ -25,10 +34,10 @@ def main():
         if pid in NOT_APPLICABLE:
             na.append({"property_id": pid, "reason": NOT_APPLICABLE[pid]})
             continue
-        if not built or pid not in REGISTRY:
+        r = reg_of(pid) if built else None
+        if r is None:
             na.append({"property_id": pid, "reason": "static check designed (DESIGN.md section 4) but not built/armed yet; not claimed until it is"})
             continue
-        r = REGISTRY[pid]
         served.append(pid)
         checks.append(
             {
